@@ -153,10 +153,15 @@ Example C01_program_nonvacuous :
             SDefineRoutine "down" ["n"]
               (SBlock [SIf (RExpr (EBin BLt (EVar "n") (ELit (LInt 1)))) (SReturn None) None; SPrintln (Some (RVar "n"));
                        SCall "up" [RExpr (EBin BSub (EVar "n") (ELit (LInt 1)))] false; SPrintln (Some (RVar "n"))]);
+            SDefineRoutine "first_in" ["grp"]
+              (SBlock [SRepeat (LIn [SrcGroup (RVar "grp")] "cand" None)
+                               (SBlock [SRepeat (LCount (RLit (LInt 2))) (SBlock [SIf (RExpr (EBin BGt (EVar "total") (ELit (LInt 0)))) (SReturn (Some (RVar "cand"))) None; SPrint (Some (RVar "cand"))])]);
+                       SReturn (Some (RLit (LStr "nobody")))]);
             SDefineRoutine "up" ["m"] (SBlock [SCall "down" [RVar "m"] false; SAssign "m" (RLit (LInt 99))]);
             SAssign "total" (RLit (LInt 0));
             SAssign "x" (RLit (LInt 0));
             SCall "down" [RLit (LInt 3)] false;
+            SCall "first_in" [RLit (LStr "g")] false;
             SRepeat LInfinite
                     (SBlock [SAssign "x" (RExpr (EBin BAdd (EVar "x") (ELit (LInt 1))));
                              SIf (RExpr (EBin BGt (EVar "x") (ELit (LInt 2)))) SBreak None;
@@ -173,6 +178,8 @@ Example C01_program_nonvacuous :
             SRepeat (LIn [SrcLight (RLit (LStr "b")); SrcGroup (RLit (LStr "g")); SrcLight (RVar "x"); SrcLocation (RLit (LStr "nowhere"))] "y" (Some (WRange "s" (RLit (LInt 0)) (RLit (LInt 100)))))
                     (SBlock [SReg R_SATURATION (RVar "s"); SSet (OpList [Target TLight (NVar "y")])]);
             SRepeat (LLocations "q" (Some (WCycle "h" None))) (SBlock [SReg R_HUE (RVar "h"); SSet (OpList [Target TLocation (NVar "q")]); SCall "down" [RLit (LInt 1)] false]);
+            SAssign "total" (RLit (LInt 5));
+            SCall "first_in" [RLit (LStr "g")] false;
             SPrintln (Some (RVar "total"))] in
   let w := [mkLight "a" "g" "l" KPlain [0; 0; 0; 0]; mkLight "" "g" "m" KPlain [0; 0; 0; 0]; mkLight "c" "" "l" KPlain [0; 0; 0; 0]; mkLight "b" "h" "l" KPlain [0; 0; 0; 0]] in
   Forall (top_stmt_ok (fst (collect p [] [])) (snd (collect p [] []))) p /\ NoDup (map fst (defs_of p)) /\
